@@ -327,6 +327,9 @@ func (e *env) midread(k kase) {
 	maxi(&maxAfter, rs.after)
 	maxi(&maxPolls, pc.positive.Load())
 	e.judge(k, o, c.Err())
+	if os.Getenv("VERIF_C10_DEBUG") != "" {
+		fmt.Fprintf(os.Stderr, "DEBUG midread %-60s %-8s %-5s k=%-6d reads=%-6d ops=%-6d after=%-6d polls+=%-5d err=%v\n", k.Input, k.Kind, k.Point, k.K, in.Reads, in.ops(), rs.after, pc.positive.Load(), o.err)
+	}
 	pre := fmt.Sprintf("mode=midread/input=%s/", k.Class)
 	if b := bound(in.ops()); rs.after > b {
 		t.Violate(pre+"class=work-after-cancel",
